@@ -1006,7 +1006,9 @@ func (m *Manager) PoolTransaction(id types.TransactionID) (types.Transaction, bo
 	defer m.mu.Unlock()
 	m.revalidatePool()
 	i, ok := m.txpool.indices[id]
-	if !ok {
+	if !ok || i >= len(m.txpool.txns) || m.txpool.txns[i].ID() != id {
+		// v1 and v2 transactions share the index map; id may belong to a v2
+		// transaction
 		return types.Transaction{}, false
 	}
 	return m.txpool.txns[i], ok
@@ -1028,7 +1030,9 @@ func (m *Manager) V2PoolTransaction(id types.TransactionID) (types.V2Transaction
 	defer m.mu.Unlock()
 	m.revalidatePool()
 	i, ok := m.txpool.indices[id]
-	if !ok {
+	if !ok || i >= len(m.txpool.v2txns) || m.txpool.v2txns[i].ID() != id {
+		// v1 and v2 transactions share the index map; id may belong to a v1
+		// transaction
 		return types.V2Transaction{}, false
 	}
 	return m.txpool.v2txns[i].DeepCopy(), ok
